@@ -251,6 +251,22 @@ def runMt (_prop : String) (f : List String) (obsS : String) : Verdict :=
     else ⟨true, "", "", none, ["mt-" ++ kind, "mt-with-flushes"], false⟩
   | _, _ => badCase
 
+/-- ECONNREFUSED injection: the kernel refused some sends of the control socket, so it refused sends
+of the sink's identically prepared socket too; the sink must have reported and counted refusals -/
+def runCr (_prop : String) (_f : List String) (obsS : String) : Verdict :=
+  match obsS.splitOn " " with
+  | [sinkS, ctlS] =>
+    let nums := ((sinkS.drop 4).toString.splitOn ".").map fun x => x.toNat?.getD 0
+    let errs := nums.getD 0 0
+    let dropped := nums.getD 1 0
+    let refused := (ctlS.drop 3).toString.toNat?.getD 0
+    if refused ≥ 2 && errs == 0 then
+      ⟨true, obsS, obsS, some ("C07+C13", "the kernel refused sends (ECONNREFUSED on the control socket) but no emit reported the socket's error"), ["conn-refused"], false⟩
+    else if refused ≥ 2 && dropped == 0 then
+      ⟨true, obsS, obsS, some ("C14", "the kernel refused sends (ECONNREFUSED on the control socket) but no refused send was counted"), ["conn-refused"], false⟩
+    else ⟨true, obsS, obsS, none, [if refused ≥ 2 then "conn-refused" else "conn-refused-not-reproduced"], false⟩
+  | _ => ⟨true, obsS, obsS, none, ["conn-refused-setup-failed"], false⟩
+
 def runLock (_prop : String) (_f : List String) (obsS : String) : Verdict :=
   if obsS == "ok" then ⟨true, "ok", "ok", none, ["lock-contention"], false⟩
   else if obsS == "ok-not-blocked" then ⟨true, "ok", "ok", none, ["lock-contention-not-set-up"], false⟩
